@@ -20,6 +20,7 @@ import (
 	"sort"
 	"strconv"
 	"strings"
+	"unicode/utf8"
 
 	"github.com/coregx/coregex/literal"
 
@@ -34,44 +35,65 @@ var (
 	litMaxClassSize  = []int{1, 3, 10}
 )
 
-type litCfg struct{ ML, LL, CS int }
+// XL: CrossProductLimit; 0 = unset (the extractor's default 250), exactly as meta/compile.go builds its extractors.
+type litCfg struct{ ML, LL, CS, XL int }
 
 func (c litCfg) String() string {
-	return fmt.Sprintf("MaxLiterals=%d,MaxLiteralLen=%d,MaxClassSize=%d", c.ML, c.LL, c.CS)
+	s := fmt.Sprintf("MaxLiterals=%d,MaxLiteralLen=%d,MaxClassSize=%d", c.ML, c.LL, c.CS)
+	if c.XL != 0 {
+		s += fmt.Sprintf(",CrossProductLimit=%d", c.XL)
+	}
+	return s
 }
 
 func (c litCfg) cfg() literal.ExtractorConfig {
-	// CrossProductLimit stays 0 (= the extractor's default 250), exactly as meta/compile.go builds it
-	return literal.ExtractorConfig{MaxLiterals: c.ML, MaxLiteralLen: c.LL, MaxClassSize: c.CS}
+	return literal.ExtractorConfig{MaxLiterals: c.ML, MaxLiteralLen: c.LL, MaxClassSize: c.CS, CrossProductLimit: c.XL}
 }
 
 func parseLitCfg(s string) (litCfg, error) {
 	var c litCfg
+	if strings.Contains(s, "CrossProductLimit=") {
+		_, err := fmt.Sscanf(s, "MaxLiterals=%d,MaxLiteralLen=%d,MaxClassSize=%d,CrossProductLimit=%d", &c.ML, &c.LL, &c.CS, &c.XL)
+		return c, err
+	}
 	_, err := fmt.Sscanf(s, "MaxLiterals=%d,MaxLiteralLen=%d,MaxClassSize=%d", &c.ML, &c.LL, &c.CS)
 	return c, err
 }
+
+// litOverflowCfgs: the universe's patterns have few literals, so the extractor's overflow paths (cross-product
+// overflow, partial-coverage marking) never run under the default CrossProductLimit of 250; these three
+// configurations lower it to 2 at otherwise generous limits.
+var litOverflowCfgs = []litCfg{{256, 64, 10, 2}, {64, 64, 10, 2}, {8, 64, 10, 2}}
 
 func allLitCfgs() []litCfg {
 	var out []litCfg
 	for _, ml := range litMaxLiterals {
 		for _, ll := range litMaxLiteralLen {
 			for _, cs := range litMaxClassSize {
-				out = append(out, litCfg{ml, ll, cs})
+				out = append(out, litCfg{ml, ll, cs, 0})
 			}
 		}
 	}
 	return out
 }
 
-// litCfgsFor: the fixed subset of the 60 configurations a pattern gets when not all are requested: the production
-// configuration of meta (256/64/10) plus n-1 others chosen by the pattern's index in its family (stride 13 is
-// coprime to 60, so consecutive patterns rotate through all of them).
+// litCfgsFor: the fixed subset of the configurations a pattern gets when not all are requested: the production
+// configuration of meta (256/64/10) plus n-1 others of the 60 chosen by the pattern's index in its family (stride
+// 13 is coprime to 60, so consecutive patterns rotate through all of them) plus one overflow configuration.
+// All requested: the 60 (production first) plus the three overflow configurations.
 func litCfgsFor(i, n int) []litCfg {
 	all := allLitCfgs()
 	if n <= 0 || n >= len(all) {
-		return all
+		// production first, so that a sequence the production configuration yields is reported under it
+		out := []litCfg{{256, 64, 10, 0}}
+		for _, c := range all {
+			if c != out[0] {
+				out = append(out, c)
+			}
+		}
+		return append(out, litOverflowCfgs...)
 	}
-	out := []litCfg{{256, 64, 10}}
+	out := []litCfg{{256, 64, 10, 0}}
 	seen := map[litCfg]bool{out[0]: true}
 	for j := 0; len(out) < n; j++ {
 		c := all[(i*7+j*13)%len(all)]
@@ -80,7 +102,7 @@ func litCfgsFor(i, n int) []litCfg {
 			out = append(out, c)
 		}
 	}
-	return out
+	return append(out, litOverflowCfgs[i%len(litOverflowCfgs)])
 }
 
 // ---- the export format ----
@@ -437,8 +459,10 @@ func litConfirmOne(rep *core.Report, r *litResult, b *litBad) bool {
 			Want: want, Got: got, Fam: r.Fam, Cfg: b.Cfg, Scope: "literal"})
 		return true
 	}
-	if b.Kind == "panic" {
-		return fail(nil, "", "no panic", "panic in "+b.API)
+	if b.Kind == "panic" { // b.API carries "<entry point>: <panic value>" as recorded by litexport
+		msg := b.API
+		b.API = strings.SplitN(msg, ":", 2)[0]
+		return fail(nil, "", "no panic", "panic in "+msg)
 	}
 	c, err := parseLitCfg(b.Cfg)
 	if err != nil {
@@ -526,6 +550,10 @@ func litConfirmOne(rep *core.Report, r *litResult, b *litBad) bool {
 				rep.Gap(fmt.Sprintf("C17 %s [%s]: an earlier literal %q of the sequence occurs at %d of %x (TLC verdict not reproduced)", r.Pat, b.Cfg, toBytes(l.B), so, hb))
 				return false
 			}
+		}
+		if !bytes.HasPrefix(hb[so:], lit) || !inContext(r.Pat, hb, b.NB, utf8.RuneCount(hb[so+len(lit):])) {
+			rep.Gap(fmt.Sprintf("C17 %s: spec says %q is a match at %d of %x, regexp does not", r.Pat, lit, so, hb))
+			return false
 		}
 		std, err := regexp.Compile(fmt.Sprintf(`\A(?s:.){%d}((?:%s))`, b.NB, r.Pat))
 		if err != nil {
